@@ -19,8 +19,8 @@ ASSUMPTIONS = [
     'the task running step_until_terminated() is observed after the loop is quiescent (no wall clock)',
 ]
 BUDGET = {
-    'quick': {'enum': ['k1', 'k2', 'listener', 'hooks', 'tasks', 'extsoon', 'ownloop'], 'hyp': 4000, 'shards': 8},
-    'thorough': {'enum': ['k1', 'k2', 'k3', 'k4w', 'listener', 'hooks', 'tasks', 'extsoon', 'ownloop'], 'hyp': 160000, 'shards': 16},
+    'quick': {'enum': ['k1', 'k2', 'listener', 'hooks', 'tasks', 'extsoon', 'ownloop', 'notext'], 'hyp': 4000, 'shards': 8},
+    'thorough': {'enum': ['k1', 'k2', 'k3', 'k4w', 'listener', 'hooks', 'tasks', 'extsoon', 'ownloop', 'notext'], 'hyp': 160000, 'shards': 16},
 }
 ALPHABET = [['pause', 'p'], ['play'], ['kill', 'kt'], ['resume', 1]]
 TERMINAL = ('finished', 'excepted', 'killed')
@@ -43,6 +43,14 @@ def enumerate_cases(tier, scope):
             for k in (1, 2):
                 for sched in gen.schedules(ALPHABET + [['fail', 'f']], k, 2):
                     yield {'program': cat[name], 'schedule': sched, 'decoy_loop': True, 'tag': f'ownloop:{name}'}
+    elif scope == 'notext':
+        # requests made without a text (kill() / pause() with their default message): the reports agree all the same -
+        # the KilledError text is the (empty) kill text, not the spelling of None
+        for name in ('async2', 'wait1', 'chain', 'sync3'):
+            for k in (1, 2):
+                for sched in gen.schedules([['pause'], ['play'], ['kill'], ['resume', 1]], k, 2):
+                    if any(ev[0] == 'kill' for ev in sched):
+                        yield {'program': cat[name], 'schedule': sched, 'tag': f'notext:{name}'}
     elif scope == 'extsoon':
         alpha = [['ext_soon', 'raise', 'x'], ['ext_soon', 'ok', 'y'], ['pause', 'p'], ['play'], ['kill', 'kt']]
         for name in ('async2', 'wait1', 'chain'):
